@@ -104,26 +104,48 @@ struct Fail {
     detail: String,
     seed: u64,
     draws: usize,
+    /// The offending id is the first candidate of the set.
+    first: bool,
 }
 
 fn check_argmax(set: &Set) -> Result<(), Fail> {
     let lg = set.logits();
     let id = match catch(|| ArgMax::new().sample(&lg)) {
         Ok(id) => id,
-        Err(msg) => return Err(Fail { kind: "argmax_panic", detail: msg, seed: 0, draws: 0 }),
+        Err(msg) => return Err(Fail { kind: "argmax_panic", detail: msg, seed: 0, draws: 0, first: false }),
     };
     let Some(score) = set.score_of(id) else {
-        return Err(Fail { kind: "argmax_foreign_id", detail: format!("returned id {} which is not a candidate", id), seed: 0, draws: 0 });
+        return Err(Fail { kind: "argmax_foreign_id", detail: format!("returned id {} which is not a candidate", id), seed: 0, draws: 0, first: false });
     };
     let max = set.vals.iter().copied().fold(f32::NEG_INFINITY, f32::max);
     if score < max {
-        return Err(Fail { kind: "argmax_not_maximal", detail: format!("returned id {} with score {} but the maximum is {}", id, fstr(score), fstr(max)), seed: 0, draws: 0 });
+        return Err(Fail { kind: "argmax_not_maximal", detail: format!("returned id {} with score {} but the maximum is {}", id, fstr(score), fstr(max)), seed: 0, draws: 0, first: false });
     }
     Ok(())
 }
 
-/// Draw `draws` tokens with two identically seeded samplers.
-fn check_multinomial(set: &Set, seed: u64, draws: usize) -> Result<u64, Fail> {
+
+const ZERO_TARGET: &str = "multinomial_zero_probability_id_target_zero";
+const ABOVE_SUM: &str = "multinomial_zero_probability_id_target_above_sum";
+
+/// Does draw number `d` (0-based) of a sampler seeded with `seed` select the
+/// first candidate of the control set [-inf, 0]? Its probabilities are exactly
+/// [0, 1], so that only happens when the random target is exactly 0. Every
+/// draw consumes one random number whatever the candidate set is, so this
+/// classifies draw `d` of any other set sampled with the same seed.
+fn zero_target_at(seed: u64, d: usize) -> bool {
+    let ctl = Logits::dense(vec![f32::NEG_INFINITY, 0.0]);
+    let c = Multinomial::with_seed(seed);
+    for _ in 0..d {
+        c.sample(&ctl);
+    }
+    c.sample(&ctl) == 0
+}
+
+/// Draw `draws` tokens with two identically seeded samplers. With
+/// `skip_zero_target`, zero-probability ids drawn because the random target
+/// was exactly 0 are passed over (used to look for the other mechanism).
+fn check_multinomial(set: &Set, seed: u64, draws: usize, skip_zero_target: bool) -> Result<u64, Fail> {
     let lg = set.logits();
     let res = catch(|| {
         let a = Multinomial::with_seed(seed);
@@ -133,18 +155,33 @@ fn check_multinomial(set: &Set, seed: u64, draws: usize) -> Result<u64, Fail> {
             let x = a.sample(&lg);
             let y = b.sample(&lg);
             if x != y {
-                return Err(Fail { kind: "multinomial_seed_not_reproducible", detail: format!("draw {}: {} vs {}", d, x, y), seed, draws: d + 1 });
+                return Err(Fail { kind: "multinomial_seed_not_reproducible", detail: format!("draw {}: {} vs {}", d, x, y), seed, draws: d + 1, first: false });
             }
             match set.score_of(x) {
                 None => {
-                    return Err(Fail { kind: "multinomial_foreign_id", detail: format!("draw {} returned id {} which is not a candidate", d, x), seed, draws: d + 1 });
+                    return Err(Fail { kind: "multinomial_foreign_id", detail: format!("draw {} returned id {} which is not a candidate", d, x), seed, draws: d + 1, first: false });
                 }
                 Some(s) if s == f32::NEG_INFINITY => {
+                    let zero_target = zero_target_at(seed, d);
+                    if zero_target && skip_zero_target {
+                        continue;
+                    }
                     return Err(Fail {
-                        kind: "multinomial_zero_probability_id",
-                        detail: format!("draw {} returned id {} whose logit is -inf (probability exactly 0)", d, x),
+                        kind: if zero_target { ZERO_TARGET } else { ABOVE_SUM },
+                        detail: format!(
+                            "draw {} of Multinomial::with_seed({}) returned id {} whose logit is -inf (probability exactly 0); {}",
+                            d,
+                            seed,
+                            x,
+                            if zero_target {
+                                "the same draw selects the zero-probability entry of [-inf, 0] too, i.e. the random target was exactly 0 and `target <= cum_prob` holds at a zero-probability entry"
+                            } else {
+                                "the same draw on [-inf, 0] selects the second entry, so the target was not 0: it exceeded the f32 cumulative sum of the softmax output and the sampler fell back to index 0"
+                            }
+                        ),
                         seed,
                         draws: d + 1,
+                        first: set.ids.first() == Some(&x),
                     });
                 }
                 _ => {}
@@ -155,12 +192,16 @@ fn check_multinomial(set: &Set, seed: u64, draws: usize) -> Result<u64, Fail> {
     });
     match res {
         Ok(r) => r,
-        Err(msg) => Err(Fail { kind: "multinomial_panic", detail: msg, seed, draws }),
+        Err(msg) => Err(Fail { kind: "multinomial_panic", detail: msg, seed, draws, first: false }),
     }
 }
 
 fn fails_same(set: &Set, f: &Fail, isa: IsaKind) -> Option<Fail> {
-    let r = with_isa(isa, || if f.kind.starts_with("argmax") { check_argmax(set) } else { check_multinomial(set, f.seed, f.draws).map(|_| ()) });
+    // Only valid candidate sets: at least one finite logit.
+    if !set.vals.iter().any(|v| v.is_finite()) {
+        return None;
+    }
+    let r = with_isa(isa, || if f.kind.starts_with("argmax") { check_argmax(set) } else { check_multinomial(set, f.seed, f.draws, f.kind == ABOVE_SUM).map(|_| ()) });
     match r {
         Err(g) if g.kind == f.kind => Some(g),
         _ => None,
@@ -169,10 +210,12 @@ fn fails_same(set: &Set, f: &Fail, isa: IsaKind) -> Option<Fail> {
 
 fn shrink(set: Set, fail: Fail, isa: IsaKind) -> (Set, Fail) {
     let (mut set, mut fail) = (set, fail);
-    let mut budget = 300;
+    // Each attempt replays up to `draws` draws over `n` candidates.
+    let cost = (fail.draws.max(1) * set.vals.len().max(1)) as u64;
+    let mut budget: i64 = if cost <= 4_000_000 { 300 } else { (1_200_000_000 / cost).clamp(4, 300) as i64 };
     loop {
         let mut progress = false;
-        if !set.dense {
+        if !set.dense && budget > 0 {
             let cand = Set { vals: set.vals.clone(), ids: (0..set.vals.len() as u32).collect(), dense: true };
             budget -= 1;
             if let Some(g) = fails_same(&cand, &fail, isa) {
@@ -181,25 +224,33 @@ fn shrink(set: Set, fail: Fail, isa: IsaKind) -> (Set, Fail) {
                 progress = true;
             }
         }
-        let mut i = 0;
-        while i < set.vals.len() && set.vals.len() > 1 && budget > 0 {
-            let mut cand = set.clone();
-            cand.vals.remove(i);
-            cand.ids.remove(i);
-            if cand.dense {
-                cand.ids = (0..cand.vals.len() as u32).collect();
+        // halves first, then single elements
+        let mut chunk = (set.vals.len() / 2).max(1);
+        loop {
+            let mut i = 0;
+            while i + chunk <= set.vals.len() && set.vals.len() > chunk && budget > 0 {
+                let mut cand = set.clone();
+                cand.vals.drain(i..i + chunk);
+                cand.ids.drain(i..i + chunk);
+                if cand.dense {
+                    cand.ids = (0..cand.vals.len() as u32).collect();
+                }
+                budget -= 1;
+                if let Some(g) = fails_same(&cand, &fail, isa) {
+                    set = cand;
+                    fail = g;
+                    progress = true;
+                } else {
+                    i += chunk;
+                }
             }
-            budget -= 1;
-            if let Some(g) = fails_same(&cand, &fail, isa) {
-                set = cand;
-                fail = g;
-                progress = true;
-            } else {
-                i += 1;
+            if chunk == 1 {
+                break;
             }
+            chunk /= 2;
         }
         for i in 0..set.vals.len() {
-            if budget == 0 {
+            if budget <= 0 {
                 break;
             }
             if set.vals[i] == 0.0 || set.vals[i] == f32::NEG_INFINITY {
@@ -231,10 +282,10 @@ fn canonicalise(set: Set, fail: Fail, isa: IsaKind) -> (Set, Fail) {
             fail = g;
         }
     }
-    if fail.seed != 0 && !fail.kind.starts_with("argmax") {
+    if fail.seed != 0 && !fail.kind.starts_with("argmax") && set.vals.len() <= 8 {
         let mut f0 = fail.clone();
         f0.seed = 0;
-        f0.draws = fail.draws.max(256);
+        f0.draws = 20_000;
         if let Some(g) = fails_same(&set, &f0, isa) {
             fail = g;
         }
@@ -245,18 +296,22 @@ fn canonicalise(set: Set, fail: Fail, isa: IsaKind) -> (Set, Fail) {
 fn report(rep: &mut Report, isas: &[(IsaKind, &'static str)], set: &Set, fail: Fail, isa: IsaKind, origin: &str) {
     rep.count(&format!("failing_cases_{}", fail.kind));
     let key = format!("shrunk_{}", fail.kind);
-    if rep.counters.get(&key).copied().unwrap_or(0) >= 8 {
+    if rep.counters.get(&key).copied().unwrap_or(0) >= 6 {
         rep.suppressed_violations += 1;
         return;
     }
     rep.count(&key);
-    // Fallback-dependent failures need a particular random draw: those are
-    // reported as found (shrinking would change the draw sequence).
-    let (small, sfail) = if fail.kind == "multinomial_zero_probability_id" && fail.draws > 64 { (set.clone(), fail) } else { shrink(set.clone(), fail, isa) };
+    let (small, sfail) = shrink(set.clone(), fail, isa);
     let (small, sfail) = canonicalise(small, sfail, isa);
     let on: Vec<&str> = isas.iter().filter(|(k, _)| fails_same(&small, &sfail, *k).is_some()).map(|(_, n)| *n).collect();
     let isa_txt = if on.len() == isas.len() { "all".to_string() } else { on.join("+") };
-    let sig = if small.vals.len() <= 8 {
+    let sig = if sfail.kind == ABOVE_SUM && sfail.first {
+        // Whether the target exceeds the rounded cumulative sum depends on
+        // the last bits of the softmax output, hence on the candidate set,
+        // the seed and the instruction set; the finding is the fallback
+        // itself, the concrete case is in the witness.
+        format!("C33|{}|fallback_returns_first_candidate_with_logit=-inf", sfail.kind)
+    } else if small.vals.len() <= 8 {
         format!("C33|{}|{}|logits={}|seed={}|draw={}|isa={}", sfail.kind, small.layout(), fvec_str(&small.vals), sfail.seed, sfail.draws, isa_txt)
     } else {
         let bits: Vec<u32> = small.vals.iter().map(|v| v.to_bits()).collect();
@@ -264,12 +319,12 @@ fn report(rep: &mut Report, isas: &[(IsaKind, &'static str)], set: &Set, fail: F
     };
     rep.violation(
         sig,
-        format!("{} candidates ({}): {}: {}", small.vals.len(), small.layout().chars().take(40).collect::<String>(), sfail.kind, sfail.detail),
+        format!("{} candidates ({}) logits {}: {}: {}", small.vals.len(), small.layout().chars().take(40).collect::<String>(), fvec_str(&small.vals).chars().take(120).collect::<String>(), sfail.kind, sfail.detail),
         json!({"mode": "c33", "kind": sfail.kind, "set": small.to_json(), "seed": sfail.seed, "draws": sfail.draws, "isas_failing": on, "origin": origin}),
     );
 }
 
-fn run_set(rep: &mut Report, isas: &[(IsaKind, &'static str)], set: &Set, seed: u64, draws: usize, origin: &str) {
+fn run_set(rep: &mut Report, isas: &[(IsaKind, &'static str)], set: &Set, seed: u64, draws: usize, skip_zero_target: bool, origin: &str) {
     rep.eval();
     rep.count(if set.dense { "sets_dense" } else { "sets_sparse" });
     rep.max("max_candidates", set.vals.len() as u64);
@@ -290,12 +345,13 @@ fn run_set(rep: &mut Report, isas: &[(IsaKind, &'static str)], set: &Set, seed: 
             report(rep, isas, set, f, *isa, origin);
             return;
         }
-        match with_isa(*isa, || check_multinomial(set, seed, draws)) {
+        match with_isa(*isa, || check_multinomial(set, seed, draws, skip_zero_target)) {
             Ok(distinct) => {
                 rep.add("multinomial_draws", 2 * draws as u64);
                 rep.max("max_distinct_ids_drawn", distinct);
             }
             Err(f) => {
+                rep.add("multinomial_draws", 2 * f.draws as u64);
                 report(rep, isas, set, f, *isa, origin);
                 return;
             }
@@ -310,81 +366,21 @@ fn run_set(rep: &mut Report, isas: &[(IsaKind, &'static str)], set: &Set, seed: 
     }
 }
 
-pub fn run(args: &Args) {
-    let mut rep = Report::new(
-        "C33",
-        "gencheck c33",
-        args,
-        "dense and sparse candidate sets of 1..=200 logits (finite and -inf entries with at least one finite, ties, all-equal, single candidate, spreads up to +-3e38) under every forced instruction set. ArgMax: returned id is a candidate whose score is >= every score. Multinomial: two samplers built with the same seed draw the same ids; every drawn id is a candidate and its logit is not -inf. Plus a seed-independent directed search (fixed candidate set whose first logit is -inf and whose f32 softmax sums to less than 1, sampler seed 0, up to 1.2e7 / 1e8 draws per instruction set) for the two ways a zero-probability first candidate can be returned: a random target of exactly 0, and the documented 'fall back to index 0' when the target exceeds the rounded cumulative sum. Non-trivial = at least 2 candidates; distinct by (logits bits, ids)",
-    );
-    let isas = usable_isas(&mut rep);
-    if isas.is_empty() {
-        rep.finish();
-        return;
-    }
-
-    if let Some(path) = &args.replay {
-        let w = load_witness(path);
-        let set = Set::from_json(&w["set"]);
-        let seed = w["seed"].as_u64().unwrap_or(0);
-        let draws = w["draws"].as_u64().unwrap_or(1) as usize;
-        run_set(&mut rep, &isas, &set, seed, draws.max(1), "replay");
-        rep.nontrivial(&0u8);
-        rep.finish();
-        return;
-    }
-
-    let mut rng = Rng::derive(args.seed, 0xC33 + 131 * args.shard as u64);
-    let draws = if args.thorough { 10_000 } else { 400 };
-    rep.note("draws_per_set_per_isa", json!(draws));
-
-    // Every size once per pattern (sharded), then random sets.
-    let mut counter = 0usize;
-    for n in 1..=200usize {
-        for (pi, pat) in PATTERNS.iter().enumerate() {
-            counter += 1;
-            if counter % args.shards != args.shard {
-                continue;
-            }
-            if !args.thorough && n > 24 && (n + pi) % 5 != 0 {
-                continue;
-            }
-            let set = gen_set(&mut rng, n, pat, (n + pi) % 2 == 0);
-            let seed = rng.next_u64();
-            run_set(&mut rep, &isas, &set, seed, draws, "size_grid");
-        }
-    }
-    let n_sets = args.budget(400, 8_000);
-    for _ in 0..n_sets {
-        let n = match rng.below(8) {
-            0 => 1,
-            1 => rng.urange(2, 4),
-            2 => *rng.choose(&[8usize, 16, 32, 64, 128, 200, 17, 33]),
-            _ => rng.urange(1, 200),
-        };
-        let pat = *rng.choose(&PATTERNS);
-        let sparse = rng.chance(1, 2);
-        let set = gen_set(&mut rng, n, pat, sparse);
-        let seed = rng.next_u64();
-        run_set(&mut rep, &isas, &set, seed, draws, "random");
-    }
-
-    if args.shard == 0 {
-        directed_fallback(&mut rep, &isas, args.get_u64("directed", if args.thorough { 100_000_000 } else { 12_000_000 }) as usize);
-    }
-
-    rep.finish();
-}
-
-/// Seed-independent directed search for the "fall back to index 0" path of
-/// `Multinomial::sample`: the f32 cumulative sum of the softmax output can stay
-/// below the largest value the generator draws, in which case no candidate is
-/// selected and index 0 is returned whatever its probability. The softmax is
-/// evaluated here only to pick a promising candidate set; the verdict is taken
-/// from what the sampler returns.
-fn directed_fallback(rep: &mut Report, isas: &[(IsaKind, &'static str)], cap: usize) {
+/// Seed-independent directed search for the two ways `Multinomial::sample`
+/// can return a first candidate of probability exactly 0:
+/// (a) the random target is exactly 0 (`0 <= 0` at the first entry);
+/// (b) the f32 cumulative sum of the softmax output stays below the target,
+///     no entry is selected and the documented fallback returns index 0.
+/// The softmax is evaluated here only to pick a promising candidate set for
+/// (b); the verdict is taken from what the sampler returns.
+fn directed(rep: &mut Report, isas: &[(IsaKind, &'static str)], cap: usize) {
     use rten_simd::SimdOp;
     use rten_vecmath::Softmax;
+    // (a): does not depend on the softmax, hence not on the instruction set.
+    let ctl = Set { vals: vec![f32::NEG_INFINITY, 0.0], ids: vec![0, 1], dense: true };
+    rep.count("directed_searches");
+    run_set(rep, isas, &ctl, 0, cap.min(2_000_000), false, "directed_zero_target");
+    // (b)
     let mut covered: Vec<&str> = Vec::new();
     for (isa, name) in isas {
         if covered.contains(name) {
@@ -407,27 +403,106 @@ fn directed_fallback(rep: &mut Report, isas: &[(IsaKind, &'static str)], cap: us
             }
         }
         let (cum, vals) = best.unwrap();
-        rep.note(&format!("directed_{}", name), json!({"logits": fvec_str(&vals), "f32_cumulative_softmax": format!("1-{:e}", 1.0 - cum as f64), "max_draws": cap}));
+        rep.note(&format!("directed_above_sum_{}", name), json!({"logits": fvec_str(&vals), "f32_cumulative_softmax": format!("1-{:e}", 1.0 - cum as f64), "max_draws": cap}));
         let ids = (0..vals.len() as u32).collect();
         let set = Set { vals, ids, dense: true };
         rep.eval();
-        rep.count("directed_fallback_searches");
-        match with_isa(*isa, || check_multinomial(&set, 0, cap)) {
-            Ok(_) => {
-                rep.count("directed_fallback_not_reached");
-                rep.add("multinomial_draws", 2 * cap as u64);
+        rep.count("directed_searches");
+        // Many seeds, 100000 draws each: the witness then replays quickly.
+        let per_seed = 100_000usize;
+        let mut hit: Option<Fail> = None;
+        let mut drawn = 0u64;
+        for seed in 0..(cap / per_seed).max(1) as u64 {
+            match with_isa(*isa, || check_multinomial(&set, seed, per_seed, true)) {
+                Ok(_) => drawn += 2 * per_seed as u64,
+                Err(f) => {
+                    drawn += 2 * f.draws as u64;
+                    hit = Some(f);
+                    break;
+                }
             }
-            Err(f) => {
-                rep.add("multinomial_draws", 2 * f.draws as u64);
+        }
+        rep.add("multinomial_draws", drawn);
+        match hit {
+            None => rep.count("directed_above_sum_not_reached"),
+            Some(f) => {
+                rep.note(&format!("directed_above_sum_hit_{}", name), json!({"seed": f.seed, "draw": f.draws - 1}));
                 // The same witness under the other instruction sets: no
-                // separate search (and signature) where it fails as well.
+                // separate search where it fails as well.
                 for (other, other_name) in isas {
                     if fails_same(&set, &f, *other).is_some() {
                         covered.push(other_name);
                     }
                 }
-                report(rep, isas, &set, f, *isa, "directed_fallback");
+                report(rep, isas, &set, f, *isa, "directed_above_sum");
             }
         }
     }
+}
+
+pub fn run(args: &Args) {
+    let mut rep = Report::new(
+        "C33",
+        "gencheck c33",
+        args,
+        "dense and sparse candidate sets of 1..=200 logits (finite and -inf entries with at least one finite, ties, all-equal, single candidate, spreads up to +-3e38) under every forced instruction set. ArgMax: returned id is a candidate whose score is >= every score. Multinomial: two samplers built with the same seed draw the same ids; every drawn id is a candidate and its logit is not -inf. Plus a seed-independent directed search (sampler seeds 0.., 100000 draws each, up to 2e7 / 2e8 draws) for the two ways a zero-probability first candidate can be returned: a random target of exactly 0 (control set [-inf, 0]), and the documented 'fall back to index 0' when the target exceeds the rounded cumulative sum (fixed set whose first logit is -inf and whose f32 softmax sums to less than 1, per instruction set). Non-trivial = at least 2 candidates; distinct by (logits bits, ids)",
+    );
+    let isas = usable_isas(&mut rep);
+    if isas.is_empty() {
+        rep.finish();
+        return;
+    }
+
+    if let Some(path) = &args.replay {
+        let w = load_witness(path);
+        let set = Set::from_json(&w["set"]);
+        let seed = w["seed"].as_u64().unwrap_or(0);
+        let draws = w["draws"].as_u64().unwrap_or(1) as usize;
+        let skip = w["kind"].as_str() == Some(ABOVE_SUM);
+        run_set(&mut rep, &isas, &set, seed, draws.max(1), skip, "replay");
+        rep.nontrivial(&0u8);
+        rep.finish();
+        return;
+    }
+
+    let mut rng = Rng::derive(args.seed, 0xC33 + 131 * args.shard as u64);
+    let draws = if args.thorough { 10_000 } else { 400 };
+    rep.note("draws_per_set_per_isa", json!(draws));
+
+    // Every size once per pattern (sharded), then random sets.
+    let mut counter = 0usize;
+    for n in 1..=200usize {
+        for (pi, pat) in PATTERNS.iter().enumerate() {
+            counter += 1;
+            if counter % args.shards != args.shard {
+                continue;
+            }
+            if !args.thorough && n > 24 && (n + pi) % 5 != 0 {
+                continue;
+            }
+            let set = gen_set(&mut rng, n, pat, (n + pi) % 2 == 0);
+            let seed = rng.next_u64();
+            run_set(&mut rep, &isas, &set, seed, draws, false, "size_grid");
+        }
+    }
+    let n_sets = args.budget(400, 8_000);
+    for _ in 0..n_sets {
+        let n = match rng.below(8) {
+            0 => 1,
+            1 => rng.urange(2, 4),
+            2 => *rng.choose(&[8usize, 16, 32, 64, 128, 200, 17, 33]),
+            _ => rng.urange(1, 200),
+        };
+        let pat = *rng.choose(&PATTERNS);
+        let sparse = rng.chance(1, 2);
+        let set = gen_set(&mut rng, n, pat, sparse);
+        let seed = rng.next_u64();
+        run_set(&mut rep, &isas, &set, seed, draws, false, "random");
+    }
+
+    if args.shard == 0 {
+        directed(&mut rep, &isas, args.get_u64("directed", if args.thorough { 200_000_000 } else { 20_000_000 }) as usize);
+    }
+
+    rep.finish();
 }
